@@ -598,6 +598,9 @@ func styleClass(id string) string {
 	if knownStyleIDs[Class(id)] {
 		return Class(id)
 	}
+	if len(id) <= 3 && digits.MatchString(id) && digits.FindString(id) == id {
+		return "numeric:" + id // WPS-style numeric ids emitted by the library's TOC code
+	}
 	return "<custom>"
 }
 
